@@ -660,7 +660,7 @@ class PrecipitateBase(GenericModel):
                 continue
             _, volDG, self._precBetaTemp[p] = dgResult
             Y.drivingForce[0,p] = volDG
-            if volDG < 0:
+            if volDG <= 0:
                 #Y starts as a copy of the previous step, so clear the nucleation terms of this phase
                 Y.Rcrit[0,p] = 0
                 Y.Gcrit[0,p] = 0
